@@ -257,8 +257,14 @@ def stepL (c : SCfg) (s : SState) (l : Label) : SState :=
   | .verdict .. => s
   | .poll => if s.phase == .idle1 || s.phase == .idle2 then { s with polledIdle := true } else s
   | .rx _ => s
-  | .cbIn .. => s
-  | .cbOut .. => s
+  -- user code (World::new, hooks, steps) runs inside the scenario futures, which are polled only while `execute`
+  -- awaits a completion, and only for attempts dispatched and not yet ended
+  | .cbIn sc att _ =>
+    if s.phase == .selecting && s.running.any (fun e => e.key.scen == sc && ((e.ret.map (·.retries.current)).getD 0) == att) then s
+    else s.note .K s!"user code of attempt ({sc},{att}) entered while it is not in flight / execute is not awaiting its scenarios"
+  | .cbOut sc att _ =>
+    if s.phase == .selecting && s.running.any (fun e => e.key.scen == sc && ((e.ret.map (·.retries.current)).getD 0) == att) then s
+    else s.note .K s!"user code of attempt ({sc},{att}) left while it is not in flight / execute is not awaiting its scenarios"
   | .envMove =>
     -- work conservation: a completed attempt must be consumed (and its slot refilled) before the
     -- runner goes idle
